@@ -869,6 +869,11 @@ def _whole_array_equations(spec):
     return spec["eq"] not in ("loop", "rows") and spec["delay"] != "loop"
 
 
+def _has_state(spec):
+    """x or a sibling is a differentiated variable."""
+    return spec["kind"] == "state" or (spec["sibs"] is not None and "~" in spec["sibs"] and spec["kind"] == "alg")
+
+
 def _in_component_array(spec):
     path = SHAPES[spec["shape"]]
     return len(path) > 1 and bool(path[-1][1]) and any(d for _, d in path[:-1])
@@ -943,7 +948,7 @@ CONTEXTS = {
         # x = <constant> / x = w / w = (-)x: x is substituted and leaves the model
         lambda s: s["kind"] == "alg" and s["eq"] in CONST_EQS + ALIAS_EQS,
         # (a state would be eliminated through its derivative equation; element equations as above)
-        lambda s: s["kind"] != "state" and _whole_array_equations(s),
+        lambda s: not _has_state(s) and _whole_array_equations(s),
         False,
     ),
 }
